@@ -711,6 +711,15 @@ def A6_rotation_gate(repo, clause):
     ok = bool(ginit) and all(group_loop in list(fn.ancestors(n)) and cand_loop not in list(fn.ancestors(n)) for n in ginit)
     obs.append(Ob("A6", clause, fn, ginit[0] if ginit else fn.node, ok,
                   "accepted list is reset per atom group (inside the group loop, outside the candidate loop)", slot="per-group-reset"))
+    # the rotation list is reset per group as well (it is indexed by the candidate number of THIS group)
+    rl_candidates = {c.func.value.id for c in calls_in(fn) if isinstance(c.func, ast.Attribute) and c.func.attr == "append" and isinstance(c.func.value, ast.Name)
+                     and cand_loop in list(fn.ancestors(c)) and c.func.value.id != G}
+    for rl in sorted(rl_candidates):
+        rinit = [n for n in fn.own_nodes() if isinstance(n, ast.Assign) and any(isinstance(t, ast.Name) and t.id == rl for t in n.targets)]
+        okr = bool(rinit) and all(group_loop in list(fn.ancestors(n)) and cand_loop not in list(fn.ancestors(n)) for n in rinit)
+        obs.append(Ob("A6", clause, fn, rinit[0] if rinit else fn.node, okr,
+                      "per-candidate list `%s` is reset per atom group (its entries are addressed by the candidate number within the group)" % rl,
+                      slot="per-group-reset:%s" % rl, positive=bool(rinit)))
     # appended value is the enumerate index of the candidate loop
     idxname = None
     it = cand_loop.iter
